@@ -768,3 +768,111 @@ Proof.
 Qed.
 
 End Init.
+
+Section UInit.
+Variables (M : tbl Q) (ids : list (Z * Z)).
+Hypothesis Nf : NoDup (map fst ids).
+Hypothesis Ns : NoDup (map snd ids).
+Hypothesis Hc : mcomplete M (map snd ids).
+
+Definition uent (ia jb : Z * Z) : Q :=
+  if fst ia <? fst jb then mval M (snd ia) (snd jb) else mval M (snd jb) (snd ia).
+
+Definition urow (ia : Z * Z) (l : list (Z * Z)) : dict Q :=
+  flat_map (fun jb => if Z.eqb (fst ia) (fst jb) then [] else [(fst jb, uent ia jb)]) l.
+
+Lemma urow_dmem ia l jb : In jb l -> fst ia <> fst jb -> dmem (fst jb) (urow ia l) = true.
+Proof.
+  induction l as [|x l IH]; intros H Hn; [destruct H|].
+  unfold urow. simpl. fold (urow ia l). apply dmem_In. rewrite dkeys_app. apply in_app_iff. destruct H as [->|H].
+  - left. assert (Z.eqb (fst ia) (fst jb) = false) as -> by (apply Z.eqb_neq; exact Hn). left. reflexivity.
+  - right. apply dmem_In. apply IH; assumption.
+Qed.
+
+Definition umk (ia : Z * Z) : unode := mkU (QT (fst ia) (Some (snd ia)) None []) 1 0%Q (urow ia ids).
+
+Lemma upgma_init_eval order : ids = combine (map Z.of_nat (seq 0 (length order))) order ->
+  upgma_init M order = Ok (map umk ids).
+Proof.
+  intro E. unfold upgma_init. rewrite <- E. apply res_map_map. intros ia Ha.
+  rewrite (res_map_map _ (fun jb => if Z.eqb (fst ia) (fst jb) then None else Some (fst jb, uent ia jb))).
+  - cbn [bind]. unfold umk, urow. rewrite flat_map_map. f_equal. f_equal.
+    apply flat_map_ext. intro jb. destruct (Z.eqb (fst ia) (fst jb)); reflexivity.
+  - intros jb Hb. destruct (Z.eqb (fst ia) (fst jb)) eqn:E1; [reflexivity|]. apply Z.eqb_neq in E1.
+    pose proof (ids_snd_neq ids Ns ia jb Ha Hb E1) as Sn. unfold uent.
+    destruct (fst ia <? fst jb).
+    + rewrite mget_mval; [reflexivity|]. apply Hc; try (apply in_map; assumption). exact Sn.
+    + rewrite mget_mval; [reflexivity|]. apply Hc; try (apply in_map; assumption). congruence.
+Qed.
+
+Lemma upgma_init_wf : uwf (map umk ids).
+Proof.
+  split; [|split].
+  - unfold uids. rewrite map_map. exact Nf.
+  - intros u v Hu Hv Huv. apply in_map_iff in Hu. destruct Hu as [ia [<- Ha]].
+    apply in_map_iff in Hv. destruct Hv as [jb [<- Hb]]. change (fst ia <> fst jb) in Huv.
+    change (dmem (fst jb) (urow ia ids) = true). apply urow_dmem; assumption.
+  - intros u Hu. apply in_map_iff in Hu. destruct Hu as [ia [<- Ha]]. simpl. lia.
+Qed.
+End UInit.
+
+(* ---------- nj_tree / upgma_tree never run out of fuel and never fail on a complete matrix ---------- *)
+Lemma combine_fst {A B} (l1 : list A) (l2 : list B) : length l1 = length l2 -> map fst (combine l1 l2) = l1.
+Proof.
+  revert l2. induction l1 as [|a l1 IH]; intros [|b l2] H; simpl in *; try discriminate; try reflexivity.
+  f_equal. apply IH. lia.
+Qed.
+
+Lemma combine_snd {A B} (l1 : list A) (l2 : list B) : length l1 = length l2 -> map snd (combine l1 l2) = l2.
+Proof.
+  revert l2. induction l1 as [|a l1 IH]; intros [|b l2] H; simpl in *; try discriminate; try reflexivity.
+  f_equal. apply IH. lia.
+Qed.
+
+Lemma ids_facts (order : list Z) :
+  let ids := combine (map Z.of_nat (seq 0 (length order))) order in
+  map fst ids = map Z.of_nat (seq 0 (length order)) /\ map snd ids = order /\
+  NoDup (map fst ids) /\ length ids = length order /\
+  forall i, In i (map fst ids) -> i < Z.of_nat (length order).
+Proof.
+  intro ids. assert (L : length (map Z.of_nat (seq 0 (length order))) = length order) by (rewrite map_length, seq_length; reflexivity).
+  assert (F : map fst ids = map Z.of_nat (seq 0 (length order))) by (apply combine_fst; exact L).
+  split; [exact F|]. split; [apply combine_snd; exact L|]. split; [|split].
+  - rewrite F. apply FinFun.Injective_map_NoDup; [intros a b; apply Nat2Z.inj | apply seq_NoDup].
+  - unfold ids. rewrite combine_length, L. apply Nat.min_id.
+  - intros i Hi. rewrite F in Hi. apply in_map_iff in Hi. destruct Hi as [k [<- Hk]]. apply in_seq in Hk. lia.
+Qed.
+
+Lemma nj_tree_total_l M order :
+  NoDup order -> order <> [] -> mcomplete M order -> msymmetric M order ->
+  exists T, nj_tree M order = Ok T.
+Proof.
+  intros N Ne Hc Hs. destruct (ids_facts order) as [F [S0 [Nf [Li Fr]]]].
+  set (ids := combine (map Z.of_nat (seq 0 (length order))) order) in *.
+  assert (Ns : NoDup (map snd ids)) by (rewrite S0; exact N).
+  assert (Hc' : mcomplete M (map snd ids)) by (rewrite S0; exact Hc).
+  assert (Hs' : msymmetric M (map snd ids)) by (rewrite S0; exact Hs).
+  unfold nj_tree. rewrite (nj_init_eval M ids Ns Hc' order eq_refl). cbn [bind].
+  apply nj_loop_total.
+  - apply nj_init_wf; assumption.
+  - rewrite map_length, Li. reflexivity.
+  - rewrite map_length, Li. lia.
+  - rewrite map_length, Li. destruct order; [congruence | simpl; lia].
+  - intros i Hi. unfold jids in Hi. rewrite map_map in Hi. apply Fr. exact Hi.
+Qed.
+
+Lemma upgma_tree_total_l M order :
+  NoDup order -> order <> [] -> mcomplete M order ->
+  exists T, upgma_tree M order = Ok T.
+Proof.
+  intros N Ne Hc. destruct (ids_facts order) as [F [S0 [Nf [Li Fr]]]].
+  set (ids := combine (map Z.of_nat (seq 0 (length order))) order) in *.
+  assert (Ns : NoDup (map snd ids)) by (rewrite S0; exact N).
+  assert (Hc' : mcomplete M (map snd ids)) by (rewrite S0; exact Hc).
+  unfold upgma_tree. rewrite (upgma_init_eval M ids Ns Hc' order eq_refl). cbn [bind].
+  apply upgma_loop_total.
+  - apply upgma_init_wf; assumption.
+  - rewrite map_length, Li. lia.
+  - rewrite map_length, Li. destruct order; [congruence | simpl; lia].
+  - intros i Hi. unfold uids in Hi. rewrite map_map in Hi. apply Fr. exact Hi.
+Qed.
